@@ -31,11 +31,12 @@ def sources(tier):
     out.append("function_body_sharding@11")
     out.append("sharded_before_shapes_known@11")
     out.append("unsorted_nodes_left_unsorted@10")
+    out.append("node_names_reset_to_none@10")
     return out
 
 
 def build_source(label):
-    want = {"captured_sharding@11": "if_with_captures@10", "function_body_sharding@11": "function_with_subgraph@10", "sharded_before_shapes_known@11": "if_with_captures@10", "unsorted_nodes_left_unsorted@10": "unsorted_nodes@10"}.get(label, label)
+    want = {"captured_sharding@11": "if_with_captures@10", "function_body_sharding@11": "function_with_subgraph@10", "sharded_before_shapes_known@11": "if_with_captures@10", "unsorted_nodes_left_unsorted@10": "unsorted_nodes@10", "node_names_reset_to_none@10": "if_with_captures@10"}.get(label, label)
     for lab, m in gp.gen_models("quick", pairs=False):
         if lab == want:
             if label in ("captured_sharding@11", "function_body_sharding@11", "sharded_before_shapes_known@11"):
@@ -91,6 +92,9 @@ def build_source(label):
                             n.shard(v, configuration=cfg, axis=0, num_shards=2)
                             n.shard(v, configuration=cfg2, axis=-1, num_shards=4, pipeline_stage=1)
                     n.shard(n.outputs[0], configuration=cfg, axis=0, num_shards=2)
+            if label == "node_names_reset_to_none@10":
+                for n in model.graph.all_nodes():
+                    n.name = None
             if label != "unsorted_nodes_left_unsorted@10":
                 model.graph.sort()  # all other sources are cloned in topological order
             # analysis metadata on a few objects (valid and invalidated keys)
@@ -691,7 +695,7 @@ def main(tier):
     srcs = sources(tier)
     if tier == "quick":
         keep = ("baseline@10", "if_with_captures@10", "nested_if_initializer_in_body@10", "function_with_attributes@10", "device_configurations@11",
-                "value_info_everywhere@10", "nested_types_on_values@10", "all_attribute_kinds@10", "output_is_initializer_and_input@10", "quantization_annotations@10", "captured_sharding@11", "device_configuration_in_function_body@10", "function_with_subgraph@10", "function_body_sharding@11", "sharded_before_shapes_known@11", "unsorted_nodes_left_unsorted@10")
+                "value_info_everywhere@10", "nested_types_on_values@10", "all_attribute_kinds@10", "output_is_initializer_and_input@10", "quantization_annotations@10", "captured_sharding@11", "device_configuration_in_function_body@10", "function_with_subgraph@10", "function_body_sharding@11", "sharded_before_shapes_known@11", "unsorted_nodes_left_unsorted@10", "node_names_reset_to_none@10")
         srcs = [s for s in srcs if s in keep]
     for label in srcs:
         model = build_source(label)
